@@ -12,10 +12,17 @@ class C12(Prop):
         n = 150 if tier == "quick" else 3000
         st = [execgen.mk_status(s, rng.randint(1, 5)) for s in execgen.SCHEDS for _ in range(2 if tier == "quick" else 20)]
         la = [execgen.mk_latch(rng.choice([1, 2, 4]), rng.randint(0, 9), rng.choice([0, 5, 15, 105])) for _ in range(30 if tier == "quick" else 600)]
-        return [Suite("status", execgen.HEADER, st), Suite("latch", execgen.HEADER, la), Suite("exec", execgen.HEADER, [execgen.gen_case(rng, maxL=4) for _ in range(n)])]
-    def oracle(self, case, recs): return execgen.oracle_c12(case, recs)
+        return [Suite("status", execgen.HEADER, st), Suite("latch", execgen.HEADER, la), Suite("exec", execgen.HEADER, [execgen.gen_case(rng, maxL=4) for _ in range(n)]),
+                # Multi executors: 1-4 listeners, one of them removed individually (flush_and_cancel_executor) between two batches of events,
+                # the others ended all at once by Multi::close (five non-log Multi kinds; oracle only)
+                Suite("multi_executors(oracle only)", execgen.HEADER, [execgen.gen_mcase_removal(rng) for _ in range(n // 2)], compare=False)]
+    def oracle(self, case, recs):
+        if case.meta.get("profile") == "mexec": return execgen.oracle_mexec_c12(case, recs)
+        return execgen.oracle_c12(case, recs)
     def nontrivial(self, case, recs):
-        m = case.meta; return (m["profile"] == "status" and m["sched"] != "never") or (m["profile"] == "latch" and m["M"] > 1) or (m["profile"] == "exec" and len(m["items"]) >= 2)
+        m = case.meta
+        if m["profile"] == "mexec": return m["k"] >= 2 and m.get("cancel", -1) >= 0
+        return (m["profile"] == "status" and m["sched"] != "never") or (m["profile"] == "latch" and m["M"] > 1) or (m["profile"] == "exec" and len(m["items"]) >= 2)
     def parse_replay(self, text):
         lines = [l for l in text.splitlines() if l.strip() and not l.startswith("#")]
         return Suite("replay", execgen.HEADER, [execgen.parse_case_line(l) for l in lines])
